@@ -100,6 +100,37 @@ def run(ctx):
                     appended = True
             res.check(marked, "CC-COVER", f, f"{vis} += component", "mark-visited", "the nodes of a found component are not marked visited (components would be reported repeatedly)", loc(v.fi, g))
             res.check(appended, "CC-COVER", f, "components.append(component)", "collect", "a found component is not added to the result", loc(v.fi, g))
+    # ---- B-START: the start node itself always belongs to the visited set a search returns
+    res.rules["B-START"] = "a search puts its start node (the node dequeued from a queue seeded with `start`) into the returned set, guarded by nothing but `not in visited`"
+    for d in ("visits._bfs", "visits._dfs"):
+        v = ctx.view(d)
+        f = v.fi.short
+        rets = [n for n in walk_no_nested(v.fi.node) if isinstance(n, ast.Return) and isinstance(n.value, ast.Name)]
+        if not rets:
+            raise AnalysisError(f"{f}: return of the visited set not found")
+        V = rets[0].value.id
+        adders = {f"{V}.add"}
+        for n in walk_no_nested(v.fi.node):
+            if isinstance(n, ast.Assign) and isinstance(n.targets[0], ast.Name) and norm(n.value) == f"{V}.add":
+                adders.add(n.targets[0].id)
+        # the container seeded with start, and the names unpacked from popping it
+        seeded = [n for n in walk_no_nested(v.fi.node) if isinstance(n, ast.Assign) and isinstance(n.targets[0], ast.Name) and "start" in {x.id for x in ast.walk(n.value) if isinstance(x, ast.Name)} and n.targets[0].id != V]
+        qnames = {n.targets[0].id for n in seeded}
+        popped = set()
+        for n in walk_no_nested(v.fi.node):
+            if isinstance(n, ast.Assign) and isinstance(n.value, ast.Call) and isinstance(n.value.func, ast.Attribute) and n.value.func.attr in ("popleft", "pop") and norm(n.value.func.value) in qnames:
+                tg = n.targets[0]
+                first = tg.elts[0] if isinstance(tg, ast.Tuple) else tg
+                if isinstance(first, ast.Name):
+                    popped.add(first.id)
+        init_has_start = any(isinstance(n, ast.Assign) and isinstance(n.targets[0], ast.Name) and n.targets[0].id == V and "start" in {x.id for x in ast.walk(n.value) if isinstance(x, ast.Name)} for n in walk_no_nested(v.fi.node))
+        good = []
+        for n in walk_no_nested(v.fi.node):
+            if isinstance(n, ast.Call) and norm(n.func) in adders and n.args and isinstance(n.args[0], ast.Name) and n.args[0].id in popped | {"start"}:
+                ifs = v.enclosing_all(n, (ast.If,))
+                if all(norm(i.test) in (f"{n.args[0].id} not in {V}", f"not {n.args[0].id} in {V}") for i in ifs):
+                    good.append(n)
+        res.check(init_has_start or bool(good), "B-START", f, norm(good[0]) if good else f"{V}.add(<dequeued node>)", "start-in-component", "the search never adds the dequeued node itself to the visited set (nodes are only marked when discovered through a hyperedge): a start node without a (filtered) hyperedge yields an EMPTY component instead of the singleton {start}", loc(v.fi, v.fi.node))
     res.assumptions += [
         "un-annotated `hg` parameters denote a Hypergraph; the degree functions are checked against all four containers (tables.POLYMORPHIC)",
         "correctness of the breadth-first search itself (that it computes reachability classes) is not decided",
